@@ -79,15 +79,16 @@ example : pyValues 3 (some 1) [.atom 1, .atom 2, .atom 3, .atom 4] =
 example : olValue 3 (some 1) [.atom 1, .atom 2, .atom 3, .atom 4] 2 = some (.atom 4) := by
   simp [olValue, pyIndex]
 
-/-- reference table: the in-place method of each augmented operator (data model §3.3.8) -/
+/-- reference table: the function of the standard `operator` module that performs `a op= b`
+    (library reference, `operator`, "In-place Operators": `a = iadd(a, b)` is equivalent to `a += b`, …) -/
 def refInplaceName : BinOpK → String
-  | .add => "__iadd__" | .sub => "__isub__" | .mult => "__imul__" | .matMult => "__imatmul__"
-  | .div => "__itruediv__" | .floorDiv => "__ifloordiv__" | .mod => "__imod__" | .pow => "__ipow__"
-  | .lShift => "__ilshift__" | .rShift => "__irshift__" | .bitAnd => "__iand__" | .bitXor => "__ixor__"
-  | .bitOr => "__ior__"
+  | .add => "iadd" | .sub => "isub" | .mult => "imul" | .matMult => "imatmul"
+  | .div => "itruediv" | .floorDiv => "ifloordiv" | .mod => "imod" | .pow => "ipow"
+  | .lShift => "ilshift" | .rShift => "irshift" | .bitAnd => "iand" | .bitXor => "ixor"
+  | .bitOr => "ior"
 
 /-- T obligation: `PendingAugAssign._op_dict` (regenerated from /repo) maps every one of the 13
-    operators to its own in-place method -/
+    operators to its own in-place function of the `operator` module -/
 theorem dunder_table (op : BinOpK) : genAugOpName op = refInplaceName op := by
   cases op <;> decide
 
